@@ -29,7 +29,8 @@ Judge(d, r) == CASE d.cls = "ok"   -> Same(d, r)
                  [] d.cls \in {"lax", "any"} -> TRUE      \* the statement does not decide these
 
 \* ------------------------------------------------------------------ Enc
-BackFns(i8) == {"raw:raw", "any:raw", "must:raw", "json:raw", "root:raw", "json:json", "tl:tl", "tlg:tl"}
+BackFns(i8) == {"raw:raw", "any:raw", "must:raw", "json:raw", "root:raw", "json:json", "tl:tl", "tlg:tl",
+                "tl-one:tl", "tl-half:tl", "tl-dataerr:tl", "tl-bufio16:tl"}        \* TL bytes under every delivery
                \cup (IF i8 THEN {"b64:url", "any:url", "must:url", "json:url", "root:url",
                                  "b64:std", "any:std", "must:std", "json:std", "root:std", "tlb:tlb"} ELSE {})
 TEnc ==
@@ -56,7 +57,12 @@ DecoderOf(fn, s) == CASE fn = "raw"  -> RawDecode(s)
 TParse == /\ E.k = "Parse" /\ E.fn \in {"raw", "b64", "any", "must", "root", "json"}
           /\ Judge(DecoderOf(E.fn, IF E.fn = "json" THEN CodesToStr(H(E.sx)) ELSE E.s), E)
 
-TTlDec == E.k = "TlDec" /\ Judge(TlDecode(H(E.bytes)), E)
+\* two successive decodes from ONE stream holding E.bytes, delivered as E.rd says (cut after E.cuts for "split"):
+\* the results are those of the byte sequence, whatever the delivery
+TTlDec == /\ E.k = "TlDec" /\ Len(E.outs) = 2
+          /\ LET by == H(E.bytes)  r == TlStreamDecode(by, 2) IN
+             /\ E.rd = "split" => FlattenSeq(Chunks(by, E.cuts)) = by
+             /\ \A i \in 1..2 : Judge(r[i], E.outs[i])
 
 \* ----------------------------------------------------------------- TL-B
 TTlbEnc == /\ E.k = "TlbEnc" /\ E.err = ""
